@@ -178,11 +178,12 @@ theorem uniqueGroups_by_tuple {τ : Type} (kids : List (SN τ)) (entries : List 
   cases u.mapM (resolveDesc kids e.kids) <;> rfl
 
 
-/-! ### the model's descendant look-up and the specification's agree on paths that end at a leaf with a value -/
+/-! ### the model's descendant look-up and the specification's agree on paths that end at a leaf -/
 
 open YV.DS in
-/-- the path ends exactly at a leaf, and that leaf (if the data has it) carries a value — what the compiler
-    guarantees for a unique argument and a valid tree for its leaves -/
+/-- the path ends exactly at a leaf — what the compiler guarantees for a unique argument (whether the leaf
+    carries a value no longer matters: before the repair of `lookupDescendant` a leaf node without one
+    made the validator panic, and this predicate had to exclude it) -/
 def goodPath {τ : Type} : List (SN τ) → List DN → List Tok → Prop
   | _, _, [] => True
   | kids, ds, hd :: tl =>
@@ -191,7 +192,7 @@ def goodPath {τ : Type} : List (SN τ) → List DN → List Tok → Prop
     | some d =>
       match lookup hd (dataKids kids) with
       | some (.container _ _ ck) => goodPath ck d.kids tl
-      | some (.leaf ..) => tl = [] ∧ d.vals ≠ []
+      | some (.leaf ..) => tl = []
       | _ => True
 
 open YV.DS in
@@ -213,11 +214,8 @@ theorem resolve_eq_leafAt {τ : Type} (kids : List (SN τ)) (ds : List DN) (p : 
         cases sn with
         | container a b ck => exact ih ck d.kids h
         | leaf a b c e =>
-          obtain ⟨ht, hv⟩ := h
-          subst ht
-          cases hvals : d.vals with
-          | nil => exact absurd hvals hv
-          | cons v r => simp
+          subst h
+          simp
         | _ => rfl
 
 theorem mapM_congr_mem {α β} (l : List α) (f g : α → Option β) (h : ∀ a ∈ l, f a = g a) : l.mapM f = l.mapM g := by
@@ -234,7 +232,7 @@ theorem filterMap_congr_mem {α β} (l : List α) (f g : α → Option β) (h : 
     simp only [List.filterMap_cons, h a (by simp), ih (fun x hx => h x (by simp [hx]))]
 
 open YV.DS in
-/-- **unique: model = specification** on unique sets whose paths end at leaves that carry a value -/
+/-- **unique: model = specification** on unique sets whose paths end at leaves -/
 theorem uniqueGroups_eq_agreeing {τ : Type} (kids : List (SN τ)) (entries : List DN) (u : List (List Tok))
     (h : ∀ e ∈ entries, ∀ p ∈ u, goodPath kids e.kids p) :
     uniqueGroups kids entries u = agreeing kids entries u := by
